@@ -333,6 +333,127 @@ def response_part(job, r):
         w.close(r)
 
 
+def async_conf_part(job, r):
+    """configuration payloads through the asynchronous and HA clients: requested (conf request handle) and pushed (callback on the
+    context or on the service, with or without a response payload in the same PDU). An authentic PDU must deliver the configuration;
+    every single-bit flip, another key, a missing MAC / header, a MAC over a prefix only, a truncation must deliver nothing:
+    no handle in the configuration-received state, no callback."""
+    exe, env, work, seed, nflip = job
+    rng = random.Random(seed)
+    sess = net.Session(exe, env, work, None)
+    c = sess.cmd
+    variants = [(svc, how, cb) for svc in ('sign', 'hasign') for how in ('requested', 'pushed', 'pushed-with-response') for cb in ('ctx', 'service')]
+    rng.shuffle(variants)
+    for svc, how, cb in variants:
+        key = mk_key(rng, rng.choice([1, 8, 64, 65]))
+        alg = rng.choice([1, 4, 5])
+        h = gen.rnd_imprint(rng, 1)
+        sg = small_sig(rng, h)
+
+        def reply(req, mutate=None, **kw):
+            payload = [S.conf_elem('aggr', 2, max_level=17, aggr_algo=1, aggr_period=1000, max_req=10)]
+            if how == 'pushed-with-response':
+                payload = [R.T(2, S.aggr_payload(req['req_id'], sg, 0))] + payload
+            return S.wrap_v2(S.AGGR_RESP_V2, payload, key, alg, **kw)
+
+        def trial(make):
+            """-> (delivered configs, callbacks, signatures returned)"""
+            c('ctx 0')
+            c('opt 0 aggr_hmac %d' % alg)
+            if cb == 'ctx':
+                c('set_conf_cb 0')
+            sess.conf_callbacks = []
+            c('clock 1700000000')
+            c('async_new 0 0 %s' % svc)
+            c('net_ep cfg.example 1 connect=0 send=- recv=-')
+            c('async_endpoint 0 %s ksi+tcp://cfg.example:1 anon %s' % ('add' if svc == 'hasign' else 'set', key.decode('latin1')))
+            c('async_opt 0 cache_size 4')
+            if cb == 'service':
+                c('async_pushconf 0')
+            if how == 'requested':
+                q = c('async_add 0 0 signconf t1')
+            else:
+                q = c('async_add 0 0 sign %s 0 t1' % h.hex())
+            if q.rc != 0:
+                c('async_free 0'); c('ctxfree 0')
+                return None
+            confs, sigs, answered = [], [], False
+            for step in range(7):
+                c('clock +1')
+                q = c('async_run 0')
+                if q.get('handle') == '1':
+                    if q.get('state') == '4' and q.get('config', '-') != '-':
+                        confs.append(q.get('config'))
+                    if q.get('state') == '3' and q.get('sigrc') == '0':
+                        sigs.append(q.get('sig'))
+                if not answered:
+                    for fd, info in list(sess.tcp.items()):
+                        if isinstance(fd, int) and info['open'] and info['sent']:
+                            try:
+                                req = S.parse_request(bytes(info['sent']), 'aggr', 2)
+                            except S.BadRequest:
+                                continue
+                            info['sent'] = bytearray()
+                            answered = True
+                            c('net_push %d %s' % (fd, make(req).hex()))
+            cbs = list(sess.conf_callbacks)
+            c('async_free 0')
+            c('ctxfree 0')
+            return confs, cbs, sigs, answered
+
+        label = '%s:%s:%s' % (svc, how, cb)
+        t = trial(lambda req: reply(req))
+        if t is None or not t[3]:
+            r.viol('async-conf:%s:harness' % label, 'request not sent / refused: %s' % (t,), '')
+            continue
+        confs, cbs, sigs, _ = t
+        got = confs + cbs
+        r.observe((label, 'honest', bool(got)))
+        if not got or not any('ml:17' in x for x in got):
+            r.viol('response:async-conf:%s:honest-not-delivered' % label, 'authentic configuration not delivered: handles %s callbacks %s' % (confs, cbs), 'key=%s' % key.hex())
+            continue
+        r.count('async_conf_honest_delivered')
+        size = [0]
+
+        def sized(req):
+            b = reply(req)
+            size[0] = len(b)
+            return b
+        trial(sized)
+        nbits = size[0] * 8
+        muts = [('bitflip', pos) for pos in sorted(rng.sample(range(nbits), min(nbits, nflip)))]
+        muts += [('other-key', None), ('no-mac', None), ('no-header', None), ('other-alg', None)] + [('truncated', k) for k in sorted(rng.sample(range(4, size[0]), 4))]
+        for kind, arg in muts:
+            def make(req, kind=kind, arg=arg):
+                if kind == 'bitflip':
+                    b = bytearray(reply(req))
+                    b[arg // 8] ^= 0x80 >> (arg % 8)
+                    return bytes(b)
+                if kind == 'other-key':
+                    return reply(req, mac_key=key + b'x')
+                if kind == 'no-mac':
+                    return reply(req, mac=False)
+                if kind == 'no-header':
+                    return reply(req, header=False)
+                if kind == 'other-alg':
+                    return reply(req, mac_alg=4 if alg != 4 else 1)
+                return reply(req)[:arg]
+            t = trial(make)
+            if t is None:
+                continue
+            confs, cbs, sigs, _ = t
+            r.count('async_conf_mutants_tried')
+            r.observe((label, kind, bool(confs or cbs)))
+            if confs or cbs or sigs:
+                r.viol('response:async-conf:%s:%s-delivered' % (label, kind), 'unauthenticated configuration PDU (%s %s) delivered content: handles %s callbacks %s signatures %d' % (kind, arg, confs, cbs, len(sigs)),
+                       'key=%s alg=%d variant=%s mutant=%s/%s' % (key.hex(), alg, label, kind, arg))
+            else:
+                r.count('async_conf_mutants_rejected')
+        if seed % 4 == 0:
+            r.sample(dict(part='async-config', variant=label, pdu_bytes=size[0], bit_flips=min(nbits, nflip)))
+    pool.check_exit(None, r, sess.ex)
+
+
 def _mac_prefix(req, s, key, alg):
     """MAC computed without the PDU's own TLV header (a classic wrong range)"""
     import hmac
@@ -352,6 +473,8 @@ def _splice(a, b, rng):
 def worker(job, r):
     if job[-1] == 'req':
         request_part(job[:-1], r)
+    elif job[-1] == 'aconf':
+        async_conf_part(job[:-1], r)
     else:
         response_part(job[:-1], r)
 
@@ -362,12 +485,14 @@ def run(ctx):
     ctx.rule = ('requests: sign/extend/config requests through blocking http/tcp, async tcp/http and HA clients for keys of length 1..65535, UTF-8 login ids, 4 HMAC algorithms, '
                 'PDU v1/v2: MAC recomputed by python hmac over the authenticated range. responses: honest reply must be delivered; EVERY single-bit flip of it (all bits for '
                 'blocking transports, 160 sampled bits per response for async/HA), truncations, splices, other key / algorithm / version, missing MAC or header, element after MAC, '
-                'MAC over a wrong range must deliver nothing (v1: or exactly the honest content); distinct = (transport, version, mutant kind, outcome)')
+                'MAC over a wrong range must deliver nothing (v1: or exactly the honest content). async configuration: {async, HA} x {requested, pushed alone, pushed with a response} x {callback on context, on service}: honest PDU must deliver, sampled bit flips (all in thorough) / other key / other algorithm / no MAC / no header / truncation must yield neither a configuration handle nor a callback nor a signature; distinct = (transport, version, mutant kind, outcome)')
     ctx.assumptions = ['python hmac/hashlib', 'simulated transports', 'reference PDU builder vlib/refserver.py']
     jobs = [(exe, ctx.env(), ctx.work, ctx.seed * 1000 + i, nreq, 'req') for i in range(8)] + [(exe, ctx.env(), ctx.work, ctx.seed * 1000 + 100 + i, nresp, 'resp') for i in range(24)]
+    jobs += [(exe, ctx.env(), ctx.work, ctx.seed * 1000 + 200 + i, 40 if ctx.tier == 'quick' else 100000, 'aconf') for i in range(4 if ctx.tier == 'quick' else 16)]
     pool.run(ctx, worker, jobs, workers=16)
     c = ctx.counters
     if not ctx.violations and not ctx.known_printed:
+        ctx.require(c.get('async_conf_honest_delivered', 0) >= 12 and c.get('async_conf_mutants_rejected', 0) >= 500, 'asynchronous configuration deliveries')
         ctx.require(c.get('request_macs_verified', 0) >= 100, 'request MACs verified')
         ctx.require(c.get('bitflips_rejected', 0) >= 10000, 'bit flips tried')
         ctx.require(c.get('honest_delivered', 0) >= 20, 'honest responses delivered')
